@@ -4,5 +4,5 @@ CONSTANTS
   Blocks = {1, 2, 3}
   LawShapes <- TLaw
 SPECIFICATION Spec
-INVARIANTS Laws Emit
+INVARIANTS Laws ChunkLaws Emit
 CHECK_DEADLOCK FALSE
